@@ -14,7 +14,8 @@ CHECKS = {'C03': {'level': 'exploration',
                        'x* in [-3,3]^n, 4 starting points at distance 4, epsilon in {1e-3,1e-5,1e-8} are minimised with '
                        'rqb, fpba1, fpba2 for bundle sizes {2,5,20} (thorough: + 100), max_evals {100,2000} (thorough: + '
                        '20000, combined with epsilon = 1e-8 only) and the default curve-search / proximity parameters '
-                       '(thorough: + one alternative set of each), and with the ellipsoid method (R = 10, max_evals '
+                       '(thorough: + one alternative set of each, combined with the two diagonal starting directions '
+                       'only), and with the ellipsoid method (R = 10, max_evals '
                        '{100,2000,20000} x all epsilon); the full product of the stated axes is run, nothing is '
                        'sampled; it is a complete enumeration of that lattice, not a proof for other functions, '
                        'dimensions or parameters',
@@ -27,8 +28,8 @@ CHECKS = {'C03': {'level': 'exploration',
                  'rqb / fpba1 / fpba2 report converged => f(x)-f* <= 2 eps sqrt(n) (1 + ||x-x*||_2); ellipsoid reports '
                  'converged => f(x)-f* <= 10 eps; ellipsoid with n <= 6 and max_evals = 20000 => reports converged. '
                  'A case is non-trivial when the solver reported converged. Violation keys: '
-                 '<solver>:converged-gap-exceeds-bound:eps=<eps>:<l1|linf>[+quad] and '
-                 'ellipsoid:not-converged-within-20000-evals:eps=<eps>:<function>',
+                 '<solver>:converged-gap-exceeds-bound:eps=<eps>:<l1|linf>[+quad][:params=<default|csearch-alt|prox-alt>] '
+                 'and ellipsoid:not-converged-within-20000-evals:eps=<eps>:<function>',
          'assumptions': ['the inf-norm family uses sqrt(n) A (sigma_min >= sqrt(n) >= 1): with sigma_min(A) >= 1 alone '
                          '||Az||_inf >= ||z||_2 / sqrt(n) only, which is not the sharpness the statement presupposes',
                          'at n = 1 the coinciding members of the alphabets (A, x*, x0) are run once',
@@ -41,19 +42,21 @@ CHECKS = {'C03': {'level': 'exploration',
                          'never as a violation',
                          'thinning of the bundle stage: the 20000-evaluation budget is combined with epsilon = 1e-8 '
                          'only (7 of the 9 (epsilon, max_evals) pairs); a run that did not converge at 1e-3 / 1e-5 within '
-                         '2000 evaluations is not followed further',
+                         '2000 evaluations is not followed further; the alternative csearch / prox parameter sets are '
+                         'combined with the starting directions ones/sqrt(n) and (+1,-1,...)/sqrt(n) only (8 of the 12 '
+                         '(direction, parameter set) pairs)',
                          'functions, dimensions, starting points and parameter values outside the lattice are not '
                          'covered'],
          'deadline': {'quick': 300, 'thorough': 1500},
-         'stages': [{'name': 'ellipsoid',
-                     'harness': 'c03_bundle',
-                     'args': ['--stage', 'ellipsoid'],
-                     'share': 0.2,
-                     'what': 'solver "ellipsoid" (R = 10 >= ||x0 - x*|| = 4) vs the known minimum: converged => gap <= '
-                             '10 eps; n <= 6 and 20000 evaluations => converged'},
-                    {'name': 'bundle',
+         'stages': [{'name': 'bundle',
                      'harness': 'c03_bundle',
                      'args': ['--stage', 'bundle'],
                      'share': 0.8,
                      'what': 'solvers "rqb", "fpba1", "fpba2" x bundle::max_size x csearch / prox parameter sets vs '
-                             'the known minimum: converged => gap <= 2 eps sqrt(n) (1 + ||x - x*||_2)'}]}}
+                             'the known minimum: converged => gap <= 2 eps sqrt(n) (1 + ||x - x*||_2)'},
+                    {'name': 'ellipsoid',
+                     'harness': 'c03_bundle',
+                     'args': ['--stage', 'ellipsoid'],
+                     'share': 0.2,
+                     'what': 'solver "ellipsoid" (R = 10 >= ||x0 - x*|| = 4) vs the known minimum: converged => gap <= '
+                             '10 eps; n <= 6 and 20000 evaluations => converged'}]}}
